@@ -54,6 +54,21 @@ func FSWriteFile(path string, data []byte) {
 	}
 }
 
+// FSSparseFile creates a file of the given size that reads as zeros.
+func FSSparseFile(path string, size int64) {
+	if err := os.MkdirAll(filepath.Dir(path), 0o755); err != nil {
+		panic(err)
+	}
+	f, err := os.Create(path)
+	if err != nil {
+		panic(err)
+	}
+	defer f.Close()
+	if err := f.Truncate(size); err != nil {
+		panic(err)
+	}
+}
+
 func FSSetMtime(path string, t time.Time) {
 	if err := os.Chtimes(path, t, t); err != nil {
 		panic(err)
